@@ -134,7 +134,7 @@ def enc_cases(draw):
         kinds = ["small_ints", "small_ints", "scores_small", "scores_small", "mixed"]
     else:
         g = draw(gen.games(options=True, enc_kinds=["int"]))
-        kinds = ["int_relabel", "float", "mixed", "bool", "huge", "zero_neg", "small_ints", "half_grid", "half_grid", "close", "close", "scores", "scores_small", "scores_float", "scores_huge", "omitted"]
+        kinds = ["int_relabel", "float", "mixed", "bool", "huge", "zero_neg", "small_ints", "half_grid", "half_grid", "close", "close", "runaway", "scores", "scores_small", "scores_float", "scores_huge", "scores_runaway", "omitted"]
     classes = g["classes"]
     encs = []
     k = draw(st.integers(3, 5))
